@@ -238,6 +238,16 @@ def rule_safe_unicode(ck, fi):
                 if not ds or any(pos is not None for _st, pos, _v in ds):
                     raise AnalysisError("_safe_unicode returns a local that is not bound by simple assignments")
                 cands = [(v_, st_) for st_, _pos, v_ in ds]
+                placeholders = [(v_, st_) for v_, st_ in cands if isinstance(v_, ast.Constant) and v_.value is None]
+                if placeholders and len(placeholders) < len(cands):
+                    # `result = None` placeholder: harmless iff a text value is assigned on every path to the return
+                    rn_ = r.value.id
+                    is_txt = lambda n: n.kind == "stmt" and isinstance(n.ast, ast.Assign) and rn_ in q.assigned_paths(n.ast) and isinstance(n.ast.value, ast.Call) and q.call_attr(n.ast.value) in TEXT_CALLS
+                    is_other = lambda n: n.kind == "stmt" and isinstance(n.ast, (ast.Assign, ast.AugAssign)) and rn_ in q.assigned_paths(n.ast) and not is_txt(n)
+                    ef_ = event_facts(su, {"txt": is_txt}, {"txt": is_other}, cond_facts=False)
+                    rnodes = su.cfg.nodes_for(r)
+                    if rnodes and all(("@txt", True) in ef_[n_.id] for n_ in rnodes):
+                        cands = [c_ for c_ in cands if c_ not in placeholders]
             for v, where in cands:
                 ok = isinstance(v, ast.Call) and q.call_attr(v) in TEXT_CALLS
                 if not ok and isinstance(v, ast.Call):
